@@ -87,6 +87,10 @@ inline void run_algebra(const json& sc) {
         r["equal"] = (A == B);
         r["equal_self"] = (A == poly_from_json(sc["A"]));
         r["mulpoly"] = op_monomials(A * B);
+        // compound assignments with the SAME object on both sides
+        { Operator P = A; P *= P; r["selfmul"] = op_entries(P, M); }
+        { Operator P = A; P += P; r["selfadd"] = op_entries(P, M); }
+        { Operator P = A; P -= P; r["selfsub"] = op_entries(P, M); }
         r["vec0"] = op_entries_vec(A, M, 0); r["vec1"] = op_entries_vec(A, M, 1); r["vec2"] = op_entries_vec(A * B, M, 2);
         if (sc.count("C")) {
             Operator C = poly_from_json(sc["C"]);
